@@ -61,6 +61,9 @@ type expect struct {
 	abandon      bool   // callback broke its own contract: stop modelling if the dialogue continues
 	inc          [2]int // [min,max] contribution to the failure count if answered with a plain failure
 	pkSigned     bool
+	unsatWhy     string // signed publickey request that no reading lets succeed: the reason
+	satRejected  bool   // fully valid signed request whose (user,key) the active callback rejects
+	saPresent    bool   // an accepting callback on this path returns a source-address option
 	why          string
 }
 
@@ -160,6 +163,9 @@ func (j *judge) fromDecision(e *expect, d outcome, perms []permSpec, paths []str
 	case oAccept:
 		amb := false
 		for i, p := range perms {
+			if p.kind == pSA {
+				e.saPresent = true
+			}
 			switch j.sa(p) {
 			case srcaddr.NoMatch:
 				e.allowFail = true
@@ -311,6 +317,7 @@ func (j *judge) expectPlain(st *mstate, idx int, q reqSpec) expect {
 		cls, why := c.classifyPK(q)
 		if cls == clsUnsat {
 			e.class = "publickey:unsat:" + why
+			e.unsatWhy = why
 			e.allowFail, e.allowTerm = true, true
 			e.inc = [2]int{0, 1}
 			e.why = why
@@ -320,6 +327,7 @@ func (j *judge) expectPlain(st *mstate, idx int, q reqSpec) expect {
 			break
 		}
 		e.class = "publickey:" + k.name + ":" + why + ":" + d1.kind.String()
+		e.satRejected = cls == clsSat && (d1.kind == oReject || d1.kind == oBannerReject)
 		switch {
 		case pkcMisuse:
 			j.contractViolation(&e, "PublicKeyCallback returned partial success although VerifiedPublicKeyCallback is set")
@@ -467,6 +475,7 @@ func (j *judge) run() {
 					}
 				} else {
 					j.count("fail:" + shortClass(e.class))
+					j.refused(e)
 					if e.saDenied != "" {
 						j.count("source_address_denied")
 						j.count("sa_denied:" + e.saDenied + ":" + c.remoteKind)
@@ -522,6 +531,7 @@ func (j *judge) run() {
 			switch {
 			case e.allowTerm:
 				j.count("terminated_by_request:" + shortClass(e.class))
+				j.refused(e)
 			case byFailures:
 				j.count("disconnect_by_failures")
 				if s.reply == rDisconnect {
@@ -565,6 +575,22 @@ func (j *judge) run() {
 	_ = lastExp
 }
 
+// refused records evidence classes for requests that were (correctly) not accepted.
+func (j *judge) refused(e expect) {
+	if e.unsatWhy != "" {
+		j.count("pk_unsat_not_accepted:" + e.unsatWhy)
+	}
+	if e.satRejected {
+		j.count("signed_valid_rejected_by_callback")
+	}
+	if e.userChange {
+		j.count("user_change_after_partial_refused")
+	}
+	if e.class == "none:after-partial" {
+		j.count("none_after_partial_refused")
+	}
+}
+
 func shortClass(c string) string {
 	// strip per-case detail that would make violation keys unstable
 	if i := strings.Index(c, ":rounds="); i >= 0 {
@@ -593,6 +619,9 @@ func (j *judge) checkSuccessEvidence(st *mstate, i int, s step, q reqSpec, e exp
 		return &cbs[len(cbs)-1]
 	}
 	j.count("success:" + q.method)
+	if e.saPresent {
+		j.count("source_address_allowed")
+	}
 	if max := c.maxAuthTries; max > 0 && st.fmax == max-1 {
 		j.count("success_at_last_permitted_attempt")
 	}
